@@ -419,6 +419,19 @@ class StateAnalysis:
                 dq.append(s_)
         if not found:
             return True, "J2: every write-free path to the read crosses a guard comparing the current key with the cache"
+        # the read sits in a helper and nothing inside the helper justifies it: it is justified if every call of the helper in the call
+        # closure is (the refresh-or-validate step stands in the caller, in front of the call)
+        lift = self.__dict__.setdefault("_lift_stack", set())
+        if f not in self.entries and (f, attr) not in lift:
+            callers = [(h, g2.nodes[nid]) for h in self.closure for g2 in [self.info(h).cfg] for nid, cl in self.info(h).calls.items() if any(t is f for _, t in cl)]
+            if callers:
+                lift.add((f, attr))
+                try:
+                    res = [self.justify(h, cn, attr, kind) for h, cn in callers]
+                finally:
+                    lift.discard((f, attr))
+                if all(ok_ for ok_, _ in res):
+                    return True, f"J2 (at the {len(callers)} call site(s) of {f.short}): " + res[0][1]
         path = []
         x = node
         while x is not None:
